@@ -17,6 +17,11 @@
                               C19_waiting_hosts, C19_no_conns_no_waiting.
    Under `reach_g` (no peer named "", clauses (i') and (iii)):
                               C06_ready_known_g, C19_no_conns_no_tables.
+   Under `reach_a` (wf_init; every EAppAnswer of the history carries o_req = false, `ans_disc`):
+                              C19_origin_backed (every entry of the origin table is in the waiting set
+                              of some host); under `reach_ga` (= reach_g + ans_disc):
+                              C19_no_conns_no_origin.  The discipline is needed:
+                              C19_origin_backed_request_flag_refuted.
    Step level:                C13_ready_flag_partial, C13_ready_flag_removed,
                               C13_peer_conn_converse_partial, C13_election_clears_rivals.
 
@@ -398,6 +403,9 @@ Proof.
   intros H. unfold record_answer. destruct (List.find _ _) as [[[a b] o]|]; auto.
   eapply t_a; [apply A_wait|exact H]. apply incl_refl. right; eauto.
 Qed.
+
+Lemma drop_origin_t n0 n h e : trans md n0 n -> trans md n0 (drop_origin n h e).
+Proof. intros H. unfold drop_origin. eapply t_a; [apply A_wait|exact H]. apply incl_refl. now left. Qed.
 
 Lemma send_message_t n0 n cid m : trans md n0 n -> trans md n0 (fst (send_message n cid m)).
 Proof.
@@ -839,7 +847,7 @@ Lemma recv_cer_t n0 n cid m :
   trans md n0 n -> trans md n0 (fst (recv_cer n cid m)).
 Proof.
   intros Hpre H. unfold recv_cer. destruct (get_conn n cid) as [c0|] eqn:Ec0; auto.
-  destruct (cstate_eqb (c_state c0) SConnected) eqn:Es; cbn [negb]; auto.
+  destruct (cstate_eqb (c_state c0) SConnected) eqn:Es; cbn [negb]; [|cbn [fst]; now apply drop_origin_t].
   assert (Es' : c_state c0 = SConnected) by (destruct (c_state c0); try discriminate; reflexivity).
   destruct (m_origin m) as [| |host] eqn:Eo; cbn [pres_get]; auto.
   destruct (Hpre c0 host eq_refl Es' eq_refl) as [Hr [Hq Hg]].
@@ -1107,8 +1115,8 @@ Proof.
     unfold route_answer. destruct (List.find _ (n_peer_waiting n)) as [[host l]|]; cbn [fst]; auto.
     match goal with |- context [List.find _ (n_conns ?N)] => assert (H1 : trans md n0 N) end.
     { eapply t_a; [apply A_wait|exact H]. rewrite map_fst_pw_remove. apply incl_refl. now left. }
-    destruct (List.find _ (n_conns _)) as [c|]; cbn [fst]; auto.
-    destruct (is_ready_state (c_state c)); cbn [fst]; auto.
+    destruct (List.find _ (n_conns _)) as [c|]; cbn [fst]; [|now apply drop_origin_t].
+    destruct (is_ready_state (c_state c)); cbn [fst]; [|now apply drop_origin_t].
     match goal with |- context [send_message ?N ?C ?M] => dpair (send_message N C M) end.
     match goal with |- context [settle_app' ?N ?D] => dpair (settle_app' N D) end. cbn [fst].
     apply settle_app'_t. now apply send_message_t.
@@ -2652,6 +2660,686 @@ Proof.
 Qed.
 
 (* ---------------------------------------------------------------------------------------- *)
+(* 8b. C19: the origin table is backed by the waiting table (origin_backed)                   *)
+(*     Not an invariant of the atomic transitions (inside a step a request is first entered   *)
+(*     in the origin table and then either answered or delivered), hence a separate walk      *)
+(*     through the model: R n n' (the origin table shrinks, what stays keeps its backing) is  *)
+(*     shown for every function but the three that need the pair in hand (obx / settled).     *)
+(* ---------------------------------------------------------------------------------------- *)
+Definition pw_get (pw : list (string * list (Z * Z))) (host : string) : list (Z * Z) :=
+  match List.find (fun e => String.eqb (fst e) host) pw with Some e => snd e | None => [] end.
+
+Lemma pw_get_map (F : string * list (Z * Z) -> string * list (Z * Z)) pw host : (forall e, fst (F e) = fst e) ->
+  pw_get (List.map F pw) host =
+  match List.find (fun e => String.eqb (fst e) host) pw with Some e => snd (F e) | None => [] end.
+Proof.
+  intros HF. unfold pw_get. induction pw as [|a r IH]; cbn; auto. rewrite HF.
+  destruct (String.eqb (fst a) host); auto.
+Qed.
+
+Lemma pw_get_remove pw host' k host :
+  pw_get (pw_remove pw host' k) host = if String.eqb host host' then remove_zz k (pw_get pw host) else pw_get pw host.
+Proof.
+  unfold pw_remove. rewrite pw_get_map by (intros e; destruct (String.eqb (fst e) host'); auto).
+  unfold pw_get. destruct (List.find _ pw) as [a|] eqn:E.
+  - apply find_some in E. destruct E as [_ E]. apply String.eqb_eq in E. rewrite E.
+    destruct (String.eqb host host'); auto.
+  - destruct (String.eqb host host'); auto.
+Qed.
+
+Lemma pw_get_filter pw hc host :
+  pw_get (List.filter (fun e => negb (String.eqb (fst e) hc)) pw) host =
+  if String.eqb host hc then [] else pw_get pw host.
+Proof.
+  unfold pw_get. induction pw as [|a r IH]; cbn.
+  - destruct (String.eqb host hc); auto.
+  - destruct (String.eqb (fst a) hc) eqn:E1; cbn.
+    + rewrite IH. destruct (String.eqb host hc) eqn:E2; auto.
+      destruct (String.eqb (fst a) host) eqn:E3; auto.
+      apply String.eqb_eq in E1, E3. subst. rewrite String.eqb_refl in E2. discriminate.
+    + destruct (String.eqb (fst a) host) eqn:E3.
+      * apply String.eqb_eq in E3. subst host. rewrite E1. auto.
+      * exact IH.
+Qed.
+
+Lemma pw_get_app_none pw host x : List.existsb (fun e => String.eqb (fst e) host) pw = false ->
+  pw_get (pw ++ [x]) host = pw_get [x] host.
+Proof.
+  unfold pw_get. induction pw as [|a r IH]; cbn; auto. intros H. apply orb_false_iff in H. destruct H as [H1 H2].
+  rewrite H1. auto.
+Qed.
+Lemma pw_get_app_other pw host x : String.eqb (fst x) host = false -> pw_get (pw ++ [x]) host = pw_get pw host.
+Proof.
+  intros H. unfold pw_get. induction pw as [|a r IH]; cbn.
+  - rewrite H. auto.
+  - destruct (String.eqb (fst a) host); auto.
+Qed.
+
+Lemma mem_zz_app x l k : mem_zz x (l ++ [k]) = mem_zz x l || mem_zz x [k].
+Proof. unfold mem_zz. apply existsb_app. Qed.
+Lemma mem_zz_self k : mem_zz k [k] = true.
+Proof. unfold mem_zz. cbn. now rewrite !Z.eqb_refl. Qed.
+Lemma mem_zz_remove x k l : mem_zz x l = true -> ~ (fst k = fst x /\ snd k = snd x) ->
+  mem_zz x (remove_zz k l) = true.
+Proof.
+  unfold mem_zz, remove_zz. intros H Hn. apply existsb_exists in H. destruct H as [y [Hy E]].
+  apply existsb_exists. exists y. split; auto. apply filter_In. split; auto.
+  apply negb_true_iff. apply not_true_iff_false. intros C. apply Hn.
+  apply andb_true_iff in C, E. destruct C as [C1 C2], E as [E1 E2].
+  apply Z.eqb_eq in C1, C2, E1, E2. split; congruence.
+Qed.
+
+Lemma pw_get_add pw host' k host :
+  pw_get (pw_add pw host' k) host =
+  if String.eqb host host' then (if mem_zz k (pw_get pw host) then pw_get pw host else pw_get pw host ++ [k])%list
+  else pw_get pw host.
+Proof.
+  unfold pw_add. destruct (List.existsb _ pw) eqn:Ex.
+  - rewrite pw_get_map by (intros e; destruct (String.eqb (fst e) host'); auto).
+    unfold pw_get. destruct (List.find _ pw) as [a|] eqn:E.
+    + apply find_some in E. destruct E as [_ E]. apply String.eqb_eq in E. rewrite E.
+      destruct (String.eqb host host'); auto.
+    + destruct (String.eqb host host') eqn:Eh; auto. apply String.eqb_eq in Eh. subst host'.
+      apply existsb_exists in Ex. destruct Ex as [y [Hy Ey]].
+      pose proof (find_none _ _ E y Hy) as C. cbn in C. congruence.
+  - destruct (String.eqb host host') eqn:Eh.
+    + apply String.eqb_eq in Eh. subst host'. rewrite pw_get_app_none by exact Ex.
+      assert (E0 : pw_get pw host = []).
+      { unfold pw_get. destruct (List.find _ pw) as [a|] eqn:E; auto. apply find_some in E.
+        destruct E as [Hin E]. assert (C : List.existsb (fun e => String.eqb (fst e) host) pw = true)
+          by (apply existsb_exists; eauto). congruence. }
+      rewrite E0. unfold pw_get. cbn. rewrite String.eqb_refl. reflexivity.
+    + apply pw_get_app_other. cbn. rewrite String.eqb_sym. exact Eh.
+Qed.
+
+(* (h, e) is in the waiting set of some host (the FIRST entry of that host: the one remove_conn looks at) *)
+Definition bk (n : node) (h e : Z) : Prop := exists host, mem_zz (h, e) (pw_get (n_peer_waiting n) host) = true.
+Definition ob (n : node) : Prop := forall h e o, List.In (h, e, o) (n_origin_waiting n) -> bk n h e.
+(* ... except possibly the pair that is being handled *)
+Definition obx (n : node) (h0 e0 : Z) : Prop :=
+  forall h e o, List.In (h, e, o) (n_origin_waiting n) -> (h = h0 /\ e = e0) \/ bk n h e.
+Definition clean (n : node) (h0 e0 : Z) : Prop := forall o, ~ List.In (h0, e0, o) (n_origin_waiting n).
+Definition settled (n : node) (h0 e0 : Z) : Prop := clean n h0 e0 \/ bk n h0 e0.
+(* the origin table shrinks and what stays keeps its backing *)
+Definition R (n n' : node) : Prop :=
+  forall h e o, List.In (h, e, o) (n_origin_waiting n') ->
+    List.In (h, e, o) (n_origin_waiting n) /\ (bk n h e -> bk n' h e).
+
+Lemma R_refl n : R n n.
+Proof. intros h e o H. auto. Qed.
+Lemma R_trans n1 n2 n3 : R n1 n2 -> R n2 n3 -> R n1 n3.
+Proof.
+  intros H1 H2 h e o H. destruct (H2 h e o H) as [A B]. destruct (H1 h e o A) as [C D]. auto.
+Qed.
+Lemma R_frame n n' : n_origin_waiting n' = n_origin_waiting n -> n_peer_waiting n' = n_peer_waiting n -> R n n'.
+Proof. intros E1 E2 h e o H. unfold bk. rewrite E2. rewrite E1 in H. auto. Qed.
+Lemma R_fr n0 n n' : n_origin_waiting n' = n_origin_waiting n -> n_peer_waiting n' = n_peer_waiting n ->
+  R n0 n -> R n0 n'.
+Proof. intros E1 E2 H. eapply R_trans; [exact H|now apply R_frame]. Qed.
+Lemma ob_R n n' : R n n' -> ob n -> ob n'.
+Proof. intros HR H h e o Hin. destruct (HR h e o Hin) as [A B]. eauto. Qed.
+Lemma obx_R n n' h0 e0 : R n n' -> obx n h0 e0 -> obx n' h0 e0.
+Proof. intros HR H h e o Hin. destruct (HR h e o Hin) as [A B]. destruct (H h e o A); auto. Qed.
+Lemma clean_R n n' h0 e0 : R n n' -> clean n h0 e0 -> clean n' h0 e0.
+Proof. intros HR H o Hin. destruct (HR _ _ _ Hin) as [A _]. exact (H o A). Qed.
+Lemma ob_obx n h0 e0 : ob n -> obx n h0 e0.
+Proof. intros H h e o Hin. right. eauto. Qed.
+Lemma obx_settled n h0 e0 : obx n h0 e0 -> settled n h0 e0 -> ob n.
+Proof.
+  intros H S h e o Hin. destruct (H h e o Hin) as [[E1 E2]|B]; auto. subst.
+  destruct S as [C|B]; auto. destruct (C o Hin).
+Qed.
+
+(* the origin-table filter of record_answer / drop_origin / receive_message *)
+Lemma in_ofilter h0 e0 (l : list (Z * Z * string)) h e o :
+  List.In (h, e, o) (List.filter (fun x => let '(h, e, _) := x in negb ((h =? h0)%Z && (e =? e0)%Z)) l) <->
+  List.In (h, e, o) l /\ ~ (h = h0 /\ e = e0).
+Proof.
+  rewrite filter_In. split; intros [A B]; split; auto.
+  - intros [E1 E2]. subst. rewrite !Z.eqb_refl in B. discriminate.
+  - apply negb_true_iff. apply not_true_iff_false. intros C. apply B.
+    apply andb_true_iff in C. destruct C as [C1 C2]. apply Z.eqb_eq in C1, C2. auto.
+Qed.
+
+Lemma rc_ow n cid r c : get_conn n cid = Some c ->
+  n_origin_waiting (remove_conn n cid r) =
+  List.filter (fun x => let '(h, e, _) := x in negb (mem_zz (h, e) (pw_get (n_peer_waiting n) (c_host c))))
+              (n_origin_waiting n).
+Proof.
+  intros Hget. unfold remove_conn, pw_get. rewrite Hget.
+  destruct (find_conn_peer n c) as [p|]; [destruct (p_conn p) as [k|]; [destruct (Nat.eqb k cid)|]|]; reflexivity.
+Qed.
+
+Lemma remove_conn_R n0 n cid r : R n0 n -> R n0 (remove_conn n cid r).
+Proof.
+  intros H. eapply R_trans; [exact H|]. destruct (get_conn n cid) as [c|] eqn:Ec.
+  - intros h e o Hin. rewrite (rc_ow _ _ _ _ Ec) in Hin. apply filter_In in Hin. destruct Hin as [Hin Hn].
+    split; auto. intros [host Hb]. exists host. rewrite (rc_pw _ _ _ _ Ec), pw_get_filter.
+    destruct (String.eqb host (c_host c)) eqn:Eh; auto. apply String.eqb_eq in Eh. subst host.
+    rewrite Hb in Hn. discriminate.
+  - unfold remove_conn. rewrite Ec. apply R_refl.
+Qed.
+Lemma close_conn_R n0 n cid r : R n0 n -> R n0 (fst (close_conn n cid r)).
+Proof. intros H. unfold close_conn. destruct (get_conn n cid); cbn [fst]; auto. now apply remove_conn_R. Qed.
+Lemma close_all_R ks : forall n0 n r, R n0 n -> R n0 (fst (close_all n ks r)).
+Proof.
+  induction ks as [|k ks IH]; intros n0 n r H; cbn [close_all fst]; auto.
+  dpair (close_conn n k r). dpair (close_all (fst (close_conn n k r)) ks r). cbn [fst].
+  apply IH. now apply close_conn_R.
+Qed.
+
+Lemma record_answer_R n0 n h e : R n0 n -> R n0 (record_answer n h e).
+Proof.
+  intros H. eapply R_trans; [exact H|]. unfold record_answer.
+  destruct (List.find _ _) as [[[a b] o]|]; [|apply R_refl].
+  intros h1 e1 o1 Hin. cbn in Hin. apply in_ofilter in Hin. destruct Hin as [Hin _]. split; auto.
+Qed.
+Lemma record_answer_clean n h e : clean (record_answer n h e) h e.
+Proof.
+  unfold record_answer. destruct (List.find _ _) as [[[a b] o]|] eqn:E.
+  - intros o1 Hin. cbn in Hin. apply in_ofilter in Hin. destruct Hin as [_ Hn]. apply Hn. auto.
+  - intros o1 Hin. pose proof (find_none _ _ E _ Hin) as C. cbn in C. rewrite !Z.eqb_refl in C. discriminate.
+Qed.
+Lemma drop_origin_R n0 n h e : R n0 n -> R n0 (drop_origin n h e).
+Proof.
+  intros H. eapply R_trans; [exact H|]. intros h1 e1 o1 Hin. cbn in Hin. apply in_ofilter in Hin.
+  destruct Hin as [Hin _]. split; auto.
+Qed.
+Lemma drop_origin_clean n h e : clean (drop_origin n h e) h e.
+Proof. intros o1 Hin. cbn in Hin. apply in_ofilter in Hin. destruct Hin as [_ Hn]. apply Hn. auto. Qed.
+
+Lemma bk_pw_remove n n1 host h e h1 e1 :
+  n_peer_waiting n1 = pw_remove (n_peer_waiting n) host (h, e) -> ~ (h1 = h /\ e1 = e) ->
+  bk n h1 e1 -> bk n1 h1 e1.
+Proof.
+  intros E Hn [hs Hb]. exists hs. rewrite E, pw_get_remove. destruct (String.eqb hs host); auto.
+  apply mem_zz_remove; auto. cbn. intros [A B]. apply Hn. auto.
+Qed.
+(* the waiting entry (h, e) is taken and, afterwards, (h, e) leaves the origin table *)
+Lemma R_take n n1 n2 host h e :
+  n_origin_waiting n1 = n_origin_waiting n -> n_peer_waiting n1 = pw_remove (n_peer_waiting n) host (h, e) ->
+  R n1 n2 -> clean n2 h e -> R n n2.
+Proof.
+  intros E1 E2 HR Hc h1 e1 o1 Hin. destruct (HR _ _ _ Hin) as [A B]. rewrite E1 in A. split; auto.
+  intros Hb. apply B. eapply bk_pw_remove; eauto. intros [X Y]. subst. exact (Hc _ Hin).
+Qed.
+
+Lemma send_message_R n0 n cid m : R n0 n -> R n0 (fst (send_message n cid m)).
+Proof.
+  intros H. eapply R_trans; [exact H|]. unfold send_message, queue_out. destruct (o_req m); cbn [fst].
+  - apply R_frame; reflexivity.
+  - destruct (get_conn n cid) as [c|].
+    + eapply R_take; [| |apply record_answer_R; apply R_frame; reflexivity|apply record_answer_clean];
+        reflexivity.
+    + apply record_answer_R. apply R_frame; reflexivity.
+Qed.
+Lemma send_message_clean n cid m : o_req m = false -> clean (fst (send_message n cid m)) (o_hbh m) (o_e2e m).
+Proof. intros E. unfold send_message, queue_out. rewrite E. cbn [fst]. apply record_answer_clean. Qed.
+(* R and settled together *)
+Definition RS (n0 n : node) (h e : Z) : Prop := R n0 n /\ settled n h e.
+Lemma send_answer_RS n0 n cid m r f : R n0 n -> RS n0 (fst (send_message n cid (answer_of m r f))) (m_hbh m) (m_e2e m).
+Proof.
+  intros H. split; [now apply send_message_R|]. left.
+  exact (send_message_clean n cid (answer_of m r f) eq_refl).
+Qed.
+
+Ltac r_fr := eapply R_fr; [reflexivity|reflexivity|].
+
+Lemma flag_ready_R n0 n cid : R n0 n -> R n0 (flag_ready n cid).
+Proof. intros H. unfold flag_ready. r_fr. exact H. Qed.
+Lemma assign_peer_conn_R n0 n cid : R n0 n -> R n0 (assign_peer_conn n cid).
+Proof.
+  intros H. unfold assign_peer_conn. destruct (get_conn n cid) as [c|]; auto.
+  destruct (String.eqb (c_host c) ""); auto. destruct (get_peer n (c_host c)); auto.
+  destruct (mem_nat cid (n_half_ready n)); r_fr; exact H.
+Qed.
+Lemma recv_dwa_R n0 n cid : R n0 n -> R n0 (fst (recv_dwa n cid)).
+Proof. intros H. unfold recv_dwa; cbn [fst]. r_fr. exact H. Qed.
+Lemma recv_dpa_R n0 n cid : R n0 n -> R n0 (fst (recv_dpa n cid)).
+Proof.
+  intros H. unfold recv_dpa.
+  match goal with |- R _ (fst (match get_conn ?N cid with _ => _ end)) => assert (H1 : R n0 N) by (r_fr; exact H) end.
+  destruct (get_conn _ cid) as [c|]; auto. destruct (c_out c); auto. now apply close_conn_R.
+Qed.
+Lemma recv_cea_R n0 n cid m : R n0 n -> R n0 (fst (recv_cea n cid m)).
+Proof.
+  intros H. unfold recv_cea. destruct (get_conn n cid) as [c0|]; auto.
+  destruct (negb _); auto.
+  apply (match_2001 (fun x => R n0 (fst x))); [|now apply close_conn_R].
+  destruct (pres_get (m_origin m)); auto.
+  destruct (_ && _); [now apply close_conn_R|]. cbn [fst].
+  apply flag_ready_R, assign_peer_conn_R. r_fr. exact H.
+Qed.
+Lemma recv_app_answer_R n0 n m : R n0 n -> R n0 (fst (recv_app_answer n m)).
+Proof.
+  intros H. unfold recv_app_answer. destruct (List.find _ _) as [[[a b] i]|]; auto.
+  destruct (List.nth_error _ i); auto. destruct (mem_z _ _); cbn [fst]; r_fr; exact H.
+Qed.
+Lemma own_request_R n0 n cid c : R n0 n -> R n0 (fst (own_request n cid c)).
+Proof. intros H. unfold own_request. destruct (get_conn n cid); cbn [fst]; auto. Qed.
+Lemma send_cer_R n0 n cid : R n0 n -> R n0 (fst (send_cer n cid)).
+Proof. intros H. unfold send_cer. dpair (own_request n cid CE). apply send_message_R. now apply own_request_R. Qed.
+Lemma send_dwr_R n0 n cid : R n0 n -> R n0 (fst (send_dwr n cid)).
+Proof.
+  intros H. unfold send_dwr. dpair (own_request n cid DW).
+  match goal with |- context [send_message ?N ?C ?M] => dpair (send_message N C M) end.
+  cbn [fst]. r_fr. apply send_message_R. now apply own_request_R.
+Qed.
+Lemma send_dpr_R n0 n cid : R n0 n -> R n0 (fst (send_dpr n cid)).
+Proof.
+  intros H. unfold send_dpr. dpair (own_request n cid DP). apply send_message_R. r_fr. now apply own_request_R.
+Qed.
+
+Lemma check_timers_R n0 n cid : R n0 n -> R n0 (fst (check_timers n cid)).
+Proof.
+  intros H. unfold check_timers. destruct (n_stopping n); auto. destruct (get_conn n cid) as [c|]; auto.
+  destruct (c_state c); auto;
+    match goal with |- context [if ?b then _ else _] => destruct b end; auto;
+    try now apply close_conn_R. now apply send_dwr_R.
+Qed.
+Lemma timers_all_R cids : forall n0 n, R n0 n -> R n0 (fst (timers_all n cids)).
+Proof.
+  induction cids as [|c r IH]; intros n0 n H; cbn [timers_all fst]; auto.
+  dpair (check_timers n c). dpair (timers_all (fst (check_timers n c)) r). cbn [fst].
+  apply IH. now apply check_timers_R.
+Qed.
+Lemma connect_to_peer_R n0 n name h res : R n0 n -> R n0 (fst (connect_to_peer n name h res)).
+Proof.
+  intros H. unfold connect_to_peer. destruct (get_peer n name) as [p|]; auto.
+  destruct (p_conn p); auto. destruct (negb (p_has_addr p)); auto. cbv zeta.
+  destruct res.
+  - match goal with |- context [send_cer ?N ?C] => dpair (send_cer N C) end. cbn [fst].
+    apply send_cer_R. r_fr. exact H.
+  - match goal with |- context [close_conn ?N ?C ?R] => dpair (close_conn N C R) end. cbn [fst].
+    apply close_conn_R. r_fr. exact H.
+  - cbn [fst]. r_fr. exact H.
+Qed.
+Lemma reconnect_all_R names : forall n0 n ds, R n0 n -> R n0 (fst (fst (reconnect_all n names ds))).
+Proof.
+  induction names as [|nm r IH]; intros n0 n ds H; cbn [reconnect_all fst]; auto.
+  destruct (get_peer n nm) as [p|]; auto.
+  destruct (wants_reconnect n p && p_has_addr p); auto.
+  destruct ds as [|[h0 res] dr].
+  - dpair (connect_to_peer n nm 0 DialOk). dtriple (reconnect_all (fst (connect_to_peer n nm 0 DialOk)) r []).
+    cbn [fst]. apply IH. now apply connect_to_peer_R.
+  - dpair (connect_to_peer n nm h0 res). dtriple (reconnect_all (fst (connect_to_peer n nm h0 res)) r dr).
+    cbn [fst]. apply IH. now apply connect_to_peer_R.
+Qed.
+Lemma io_iteration_R n0 n ds : R n0 n -> R n0 (fst (fst (io_iteration n ds))).
+Proof.
+  intros H. unfold io_iteration. dpair (timers_all n (List.map c_id (n_conns n))).
+  match goal with |- context [reconnect_all ?N ?L ?D] => dtriple (reconnect_all N L D) end.
+  cbn [fst]. r_fr. apply reconnect_all_R. now apply timers_all_R.
+Qed.
+Lemma flush_conns_R cids : forall n0 n, R n0 n -> R n0 (fst (flush_conns n cids)).
+Proof.
+  induction cids as [|cid r IH]; intros n0 n H; cbn [flush_conns fst]; auto.
+  match goal with |- context [let '(n1, o1) := ?X in _] =>
+    assert (H1 : R n0 (fst X)); [|dpair X] end.
+  { destruct (get_conn n cid) as [c|]; auto. destruct (c_stalled c || negb (c_sock_open c)); auto.
+    assert (H2 : R n0 (set_conns n (upd_conn (n_conns n) cid (fun c => set_cout c [])))) by (r_fr; exact H).
+    destruct (c_out c); auto. destruct (cstate_eqb (c_state c) SClosing); auto.
+    match goal with |- context [close_conn ?N ?C ?R] => dpair (close_conn N C R) end. cbn [fst].
+    now apply close_conn_R. }
+  match goal with |- context [flush_conns ?N r] => dpair (flush_conns N r) end. cbn [fst].
+  apply IH. exact H1.
+Qed.
+Lemma flush_R n0 n : R n0 n -> R n0 (fst (flush n)).
+Proof. intros H. unfold flush. now apply flush_conns_R. Qed.
+Lemma settle_R n0 n ds : R n0 n -> R n0 (fst (fst (settle n ds))).
+Proof.
+  intros H. unfold settle. dpair (flush n).
+  match goal with |- context [io_iteration ?N ?D] => dtriple (io_iteration N D) end.
+  match goal with |- context [flush ?N] => dpair (flush N) end. cbn [fst].
+  apply flush_R. apply io_iteration_R. now apply flush_R.
+Qed.
+Lemma settle'_R n0 n ds : R n0 n -> R n0 (fst (settle' n ds)).
+Proof. intros H. unfold settle'. dtriple (settle n ds). cbn [fst]. now apply settle_R. Qed.
+Lemma settle_app_R n0 n ds : R n0 n -> R n0 (fst (fst (settle_app n ds))).
+Proof.
+  intros H. unfold settle_app.
+  match goal with |- context [io_iteration ?N ?D] => dtriple (io_iteration N D) end.
+  match goal with |- context [flush ?N] => dpair (flush N) end. cbn [fst].
+  apply flush_R. now apply io_iteration_R.
+Qed.
+Lemma settle_app'_R n0 n ds : R n0 n -> R n0 (fst (settle_app' n ds)).
+Proof. intros H. unfold settle_app'. dtriple (settle_app n ds). cbn [fst]. now apply settle_app_R. Qed.
+
+Lemma recv_dwr_RS n0 n cid m : R n0 n -> RS n0 (fst (recv_dwr n cid m)) (m_hbh m) (m_e2e m).
+Proof. intros H. unfold recv_dwr. now apply send_answer_RS. Qed.
+Lemma recv_dpr_RS n0 n cid m : R n0 n -> RS n0 (fst (recv_dpr n cid m)) (m_hbh m) (m_e2e m).
+Proof.
+  intros H. unfold recv_dpr. apply send_answer_RS.
+  destruct (get_conn _ cid) as [c|]; [|r_fr; exact H]. destruct (find_conn_peer _ c); r_fr; exact H.
+Qed.
+Lemma cer_tail_RS n0 n rivals cid host m : R n0 n ->
+  RS n0 (fst (cer_tail n rivals cid host m)) (m_hbh m) (m_e2e m).
+Proof.
+  intros H. unfold cer_tail. dpair (close_all n rivals R_CLEAN).
+  assert (H1 : R n0 (fst (close_all n rivals R_CLEAN))) by now apply close_all_R.
+  apply (match3 (fun x => RS n0 (fst x) (m_hbh m) (m_e2e m))).
+  - match goal with |- context [send_message ?N ?C ?M] => dpair (send_message N C M) end. cbn [fst].
+    now apply send_answer_RS.
+  - cbv zeta. match goal with |- context [send_message ?N ?C ?M] => dpair (send_message N C M) end. cbn [fst].
+    apply send_answer_RS. apply flag_ready_R, assign_peer_conn_R. r_fr. exact H1.
+Qed.
+Lemma recv_cer_RS n0 n cid m host : get_conn n cid <> None -> m_origin m = Present host -> R n0 n ->
+  RS n0 (fst (recv_cer n cid m)) (m_hbh m) (m_e2e m).
+Proof.
+  intros Hc Eo H. unfold recv_cer. destruct (get_conn n cid) as [c0|]; [clear Hc|congruence].
+  destruct (negb _).
+  { cbn [fst]. split; [now apply drop_origin_R|left; apply drop_origin_clean]. }
+  rewrite Eo. cbn [pres_get]. destruct (get_peer n host) as [p|].
+  - cbv zeta. match goal with |- context [election_rivals ?N cid host] => set (nn := N) in * end.
+    assert (H1 : R n0 nn) by (subst nn; r_fr; exact H).
+    pose proof (cer_tail_RS n0 nn (election_rivals nn cid host) cid host m H1) as Htail.
+    unfold cer_tail in Htail.
+    destruct (election_rivals nn cid host) as [|k ks]; [exact Htail|].
+    destruct (String.ltb host (g_host (n_cfg nn))); [exact Htail|].
+    apply send_answer_RS. r_fr. exact H1.
+  - cbv zeta. apply send_answer_RS. r_fr. exact H.
+Qed.
+
+Lemma pw_add_R n0 n n1 host k : n_origin_waiting n1 = n_origin_waiting n ->
+  n_peer_waiting n1 = pw_add (n_peer_waiting n) host k -> R n0 n -> R n0 n1.
+Proof.
+  intros E1 E2 H. eapply R_trans; [exact H|]. intros h e o Hin. rewrite E1 in Hin. split; auto.
+  intros [hs Hb]. exists hs. rewrite E2, pw_get_add. destruct (String.eqb hs host); auto.
+  destruct (mem_zz k _); auto. rewrite mem_zz_app, Hb. reflexivity.
+Qed.
+Lemma pw_add_bk n1 pw host h e : n_peer_waiting n1 = pw_add pw host (h, e) -> bk n1 h e.
+Proof.
+  intros E. exists host. rewrite E, pw_get_add, String.eqb_refl.
+  destruct (mem_zz (h, e) (pw_get pw host)) eqn:Em; auto. rewrite mem_zz_app, mem_zz_self. apply orb_true_r.
+Qed.
+Lemma bk_R n n' h e o : R n n' -> List.In (h, e, o) (n_origin_waiting n') -> bk n h e -> bk n' h e.
+Proof. intros HR Hin. destruct (HR _ _ _ Hin) as [_ B]. exact B. Qed.
+
+Lemma recv_app_request_RS n0 n cid m : get_conn n cid <> None -> R n0 n ->
+  RS n0 (fst (recv_app_request n cid m)) (m_hbh m) (m_e2e m).
+Proof.
+  intros Hc H. unfold recv_app_request. destruct (get_conn n cid) as [c|]; [clear Hc|congruence].
+  destruct (m_drealm m); try now apply send_answer_RS.
+  destruct (route_lookup n a); try now apply send_answer_RS.
+  destruct (List.find _ l) as [[[i|] x]|]; try now apply send_answer_RS.
+  cbv zeta.
+  match goal with |- context [send_message ?N cid _] => assert (H1 : R n0 N) end.
+  { eapply pw_add_R; [| |exact H]; reflexivity. }
+  destruct (handler_raises m); cbn [fst].
+  - match goal with |- context [send_message ?N ?C ?M] => dpair (send_message N C M) end. cbn [fst].
+    now apply send_answer_RS.
+  - split; [exact H1|]. right. eapply pw_add_bk. reflexivity.
+Qed.
+
+Lemma record_obx n h0 e0 o n1 : ob n -> n_peer_waiting n1 = n_peer_waiting n ->
+  n_origin_waiting n1 =
+    (List.filter (fun x => let '(h, e, _) := x in negb ((h =? h0)%Z && (e =? e0)%Z)) (n_origin_waiting n) ++ [(h0, e0, o)])%list ->
+  obx n1 h0 e0.
+Proof.
+  intros H E1 E2 h e o1 Hin. rewrite E2 in Hin. apply in_app_or in Hin. destruct Hin as [Hin|[Hin|[]]].
+  - apply in_ofilter in Hin. destruct Hin as [Hin _]. right. destruct (H _ _ _ Hin) as [hs Hb]. exists hs. now rewrite E1.
+  - inversion Hin. auto.
+Qed.
+
+Lemma receive_message_ob n cid m : get_conn n cid <> None -> ob n -> ob (fst (receive_message n cid m)).
+Proof.
+  intros Hget H. unfold receive_message. cbv zeta.
+  match goal with |- context [g_validate (n_cfg ?N)] => set (n1 := N) end.
+  assert (Hc : get_conn n1 cid <> None).
+  { subst n1. destruct (m_origin m); auto; destruct (m_req m); auto. }
+  assert (Hx : obx n1 (m_hbh m) (m_e2e m)).
+  { subst n1. destruct (m_origin m); try (now apply ob_obx); destruct (m_req m); try (now apply ob_obx);
+      eapply record_obx; eauto; reflexivity. }
+  assert (FinS : forall n', RS n1 n' (m_hbh m) (m_e2e m) -> ob n').
+  { intros n' [HR HS]. eapply obx_settled; [eapply obx_R; eauto|exact HS]. }
+  assert (FinR : m_req m = false -> forall n', R n1 n' -> ob n').
+  { intros Er n' HR. eapply ob_R; [exact HR|]. subst n1. rewrite Er. destruct (m_origin m); exact H. }
+  clearbody n1. clear H Hget Hx.
+  destruct (if m_req m && g_validate (n_cfg n1) then m_missing m else []);
+    [|apply FinS, send_answer_RS, R_refl].
+  match goal with |- context [if ?b then _ else _] => destruct b end; [apply FinS, send_answer_RS, R_refl|].
+  destruct (m_req m) eqn:Er, (m_cmd m) eqn:Em.
+  - destruct (m_origin m) eqn:Eo; try (apply FinS, send_answer_RS, R_refl).
+    apply FinS. eapply recv_cer_RS; eauto. apply R_refl.
+  - apply FinS, recv_dwr_RS, R_refl.
+  - apply FinS, recv_dpr_RS, R_refl.
+  - apply FinS, recv_app_request_RS; [exact Hc|apply R_refl].
+  - apply FinR; auto. apply recv_cea_R, R_refl.
+  - apply FinR; auto. apply recv_dwa_R, R_refl.
+  - apply FinR; auto. apply recv_dpa_R, R_refl.
+  - apply FinR; auto. apply recv_app_answer_R, R_refl.
+Qed.
+
+Lemma dispatch_ob n cid m : ob n -> ob (fst (dispatch n cid m)).
+Proof.
+  intros H. unfold dispatch. destruct (get_conn n cid) as [c|] eqn:Ec; auto.
+  destruct (gate_passes c m); auto. apply receive_message_ob; auto. congruence.
+Qed.
+Lemma dispatch_all_ob ms : forall n cid, ob n -> ob (fst (dispatch_all n cid ms)).
+Proof.
+  induction ms as [|m r IH]; intros n cid H; cbn [dispatch_all fst]; auto.
+  dpair (dispatch n cid m). dpair (dispatch_all (fst (dispatch n cid m)) cid r).
+  cbn [fst]. apply IH. now apply dispatch_ob.
+Qed.
+
+Lemma wake_R target : forall fuel n0 n ds acc, R n0 n ->
+  R n0 (fst ((fix wake (fuel : nat) (n : node) (ds : dials) (acc : list output) {struct fuel} : node * list output :=
+         let expire := fun (n : node) =>
+           set_apps n (List.map (fun a => set_awaiting a (List.filter (fun w => (target <? snd w)%Z) (a_waiting a))) (n_apps n)) in
+         match fuel with
+         | O => (expire (set_time n target (n_io_deadline n)), acc)
+         | S f =>
+             if (n_io_deadline n <=? target)%Z then
+               let n1 := set_time n (n_io_deadline n) (n_io_deadline n) in
+               let '(n2, o2, ds2) := settle n1 ds in
+               wake f n2 ds2 (acc ++ o2)%list
+             else (expire (set_time n target (n_io_deadline n)), acc)
+         end) fuel n ds acc)).
+Proof.
+  induction fuel as [|f IH]; intros n0 n ds acc H.
+  - cbn [fst]. r_fr. exact H.
+  - destruct (n_io_deadline n <=? target)%Z.
+    + cbv zeta. dtriple (settle (set_time n (n_io_deadline n) (n_io_deadline n)) ds).
+      apply IH. apply settle_R. r_fr. exact H.
+    + cbn [fst]. r_fr. exact H.
+Qed.
+
+Lemma stop_go_R cids : forall n0 n acc, R n0 n ->
+  R n0 (fst ((fix go (cids : list nat) (n : node) (acc : list output) {struct cids} : node * list output :=
+             match cids with
+             | [] => (n, acc)
+             | c :: r => match get_conn n c with
+                         | Some cn => if is_ready_state (c_state cn)
+                                      then let '(n', o') := send_dpr n c in go r n' (acc ++ o')%list
+                                      else go r n acc
+                         | None => go r n acc
+                         end
+             end) cids n acc)).
+Proof.
+  induction cids as [|c r IH]; intros n0 n acc H; [exact H|].
+  destruct (get_conn n c) as [cn|] eqn:Ec; [|now apply IH].
+  destruct (is_ready_state (c_state cn)) eqn:Er; [|now apply IH].
+  dpair (send_dpr n c). apply IH. now apply send_dpr_R.
+Qed.
+
+Lemma finish_go_R cids : forall n0 n acc, R n0 n ->
+  R n0 (fst ((fix go (cids : list nat) (n : node) (acc : list output) {struct cids} : node * list output :=
+           match cids with
+           | [] => (n, acc)
+           | c :: r => let '(n', o') := close_conn n c R_SHUTDOWN in go r n' (acc ++ o')%list
+           end) cids n acc)).
+Proof.
+  induction cids as [|c r IH]; intros n0 n acc H; [exact H|].
+  dpair (close_conn n c R_SHUTDOWN). apply IH. now apply close_conn_R.
+Qed.
+
+Lemma start_go_R names : forall n0 n ds acc, R n0 n ->
+  R n0 (fst (fst ((fix go (names : list string) (n : node) (ds : dials) (acc : list output) {struct names} : node * list output * dials :=
+           match names with
+           | [] => (n, acc, ds)
+           | nm :: r =>
+               match get_peer n nm with
+               | Some p =>
+                   if p_persistent p then
+                     match ds with
+                     | (h0, res) :: dr => let '(n1, o1) := connect_to_peer n nm h0 res in go r n1 dr (acc ++ o1)%list
+                     | [] => let '(n1, o1) := connect_to_peer n nm 0%Z DialOk in go r n1 [] (acc ++ o1)%list
+                     end
+                   else go r n ds acc
+               | None => go r n ds acc
+               end
+           end) names n ds acc))).
+Proof.
+  induction names as [|nm r IH]; intros n0 n ds acc H; [exact H|].
+  destruct (get_peer n nm) as [p|]; [|now apply IH].
+  destruct (p_persistent p); [|now apply IH].
+  destruct ds as [|[h0 res] dr].
+  - dpair (connect_to_peer n nm 0%Z DialOk). apply IH. now apply connect_to_peer_R.
+  - dpair (connect_to_peer n nm h0 res). apply IH. now apply connect_to_peer_R.
+Qed.
+
+(* the event discipline: what Application.send_answer sends is an answer *)
+Definition ans_ok (e : event) : Prop := match e with EAppAnswer _ m => o_req m = false | _ => True end.
+
+Lemma take_obx n n1 host h e : ob n -> n_origin_waiting n1 = n_origin_waiting n ->
+  n_peer_waiting n1 = pw_remove (n_peer_waiting n) host (h, e) -> obx n1 h e.
+Proof.
+  intros H E1 E2 h1 e1 o1 Hin. rewrite E1 in Hin.
+  destruct (Z.eq_dec h1 h) as [A|A]; [destruct (Z.eq_dec e1 e) as [B|B]; [now left|]|];
+    right; (eapply bk_pw_remove; [exact E2|tauto|eauto]).
+Qed.
+
+Lemma step_answer_ob n ds i m : o_req m = false -> ob n -> ob (fst (step n ds (EAppAnswer i m))).
+Proof.
+  intros Eq H. unfold step, route_answer. destruct (List.find _ (n_peer_waiting n)) as [[host l]|]; cbn [fst]; auto.
+  match goal with |- context [List.find _ (n_conns ?N)] => assert (H1 : obx N (o_hbh m) (o_e2e m)) end.
+  { eapply take_obx; eauto; reflexivity. }
+  assert (Hd : forall N, obx N (o_hbh m) (o_e2e m) -> ob (drop_origin N (o_hbh m) (o_e2e m))).
+  { intros N HN. eapply obx_settled; [eapply obx_R; [apply drop_origin_R, R_refl|exact HN]|left; apply drop_origin_clean]. }
+  destruct (List.find _ (n_conns _)) as [c|]; cbn [fst]; [|now apply Hd].
+  destruct (is_ready_state (c_state c)); cbn [fst]; [|now apply Hd].
+  match goal with |- context [send_message ?N ?C ?M] => dpair (send_message N C M) end.
+  match goal with |- context [settle_app' ?N ?D] => dpair (settle_app' N D) end. cbn [fst].
+  eapply ob_R; [apply settle_app'_R, R_refl|].
+  eapply obx_settled; [eapply obx_R; [apply send_message_R, R_refl|exact H1]|].
+  left. now apply send_message_clean.
+Qed.
+
+Lemma step_ob n ds e : ans_ok e -> ob n -> ob (fst (step n ds e)).
+Proof.
+  intros Hok H0. destruct e; try (now apply step_answer_ob).
+  2: { (* ERecv *)
+    unfold step. destruct (get_conn n cid); auto.
+    dtriple (io_iteration n ds).
+    match goal with |- context [dispatch_all ?N cid ms] => dpair (dispatch_all N cid ms) end.
+    match goal with |- context [settle' ?N ?D] => dpair (settle' N D) end. cbn [fst].
+    eapply ob_R; [apply settle'_R, R_refl|]. apply dispatch_all_ob.
+    eapply ob_R; [|exact H0]. unfold upd_last_read. r_fr. apply io_iteration_R, R_refl. }
+  all: (eapply ob_R; [|exact H0]); pose proof (R_refl n) as H; unfold step.
+  - (* EAccept *)
+    destruct (n_stopping n); cbn [fst]; [r_fr; exact H|]. apply settle'_R. r_fr. exact H.
+  - (* EPeerClose *)
+    dpair (close_conn n cid R_GONE). match goal with |- context [settle' ?N ?D] => dpair (settle' N D) end. cbn [fst].
+    apply settle'_R. now apply close_conn_R.
+  - (* EReadErr *)
+    match goal with |- context [let '(n1, o1) := ?X in _] => assert (H1 : R n (fst X)); [|dpair X] end.
+    { destruct hard; auto. now apply close_conn_R. }
+    match goal with |- context [settle' ?N ?D] => dpair (settle' N D) end. cbn [fst].
+    now apply settle'_R.
+  - (* EConnDone *)
+    destruct (get_conn n cid) as [c|] eqn:Ec; auto. destruct (cstate_eqb (c_state c) SConnecting) eqn:Esc; auto.
+    destruct ok.
+    + cbv zeta.
+      match goal with |- context [send_cer ?N cid] => assert (H1 : R n N); [|dpair (send_cer N cid)] end.
+      { destruct (find_conn_peer _ c); r_fr; exact H. }
+      match goal with |- context [io_iteration ?N ?D] => dtriple (io_iteration N D) end.
+      match goal with |- context [settle' ?N ?D] => dpair (settle' N D) end. cbn [fst].
+      apply settle'_R. apply io_iteration_R. now apply send_cer_R.
+    + dpair (close_conn n cid R_FAILED_CONNECT).
+      match goal with |- context [settle' ?N ?D] => dpair (settle' N D) end. cbn [fst].
+      apply settle'_R. now apply close_conn_R.
+  - (* EStall *)
+    destruct (get_conn n cid) as [c|]; auto. cbv zeta.
+    match goal with |- context [settle' ?N ds] => assert (H1 : R n N) by (r_fr; exact H) end.
+    destruct b; auto. destruct (c_out c); auto. now apply settle'_R.
+  - (* ETick *)
+    exact (wake_R (n_now n + dt)%Z (S (Z.to_nat dt)) n n ds [] H).
+  - (* EAppRequest *)
+    match goal with |- context [let '(n0, e2e) := ?X in _] => assert (H1 : R n (fst X)); [|destruct X as [n1 e2e]; cbn [fst] in H1] end.
+    { destruct (o_e2e m =? 0)%Z; cbn [fst]; auto. }
+    destruct (route_request n1 app realm) as [[|p0 l]|]; auto.
+    match goal with |- context [match ?X with Some p => _ | None => (n1, [ONotRoutable]) end] => destruct X as [p|]; auto end.
+    destruct (p_conn p) as [cid|]; auto. destruct (get_conn n1 cid) as [c|]; auto.
+    match goal with |- context [let '(n1, hbh) := ?X in _] => assert (H2 : R n (fst X)); [|destruct X as [n2 hbh]; cbn [fst] in H2] end.
+    { destruct (o_hbh m =? 0)%Z; cbn [fst]; auto. }
+    cbv zeta.
+    match goal with |- context [send_message ?N ?C ?M] => dpair (send_message N C M) end.
+    match goal with |- context [settle_app' ?N ?D] => dpair (settle_app' N D) end. cbn [fst].
+    apply settle_app'_R. apply send_message_R. r_fr. exact H2.
+  - (* EStop *)
+    cbv zeta. assert (H1 : R n (set_misc n true (n_next_cid n) (n_e2e n))) by (r_fr; exact H).
+    destruct force; auto.
+    match goal with |- context [let '(n1, o1) := ?X in _] => assert (H2 : R n (fst X)); [|dpair X] end.
+    { now apply stop_go_R. }
+    match goal with |- context [settle' ?N ?D] => dpair (settle' N D) end. cbn [fst].
+    now apply settle'_R.
+  - (* EStopFinish *)
+    cbv zeta.
+    match goal with |- context [let '(n1, o1) := ?X in _] => assert (H2 : R n (fst X)); [|dpair X] end.
+    { apply finish_go_R. r_fr. exact H. }
+    cbn [fst]. r_fr. exact H2.
+  - (* EStart *)
+    match goal with |- R _ (fst (match ?X with _ => _ end)) => assert (H2 : R n (fst (fst X))); [|dtriple X] end.
+    { now apply start_go_R. }
+    match goal with |- context [settle' ?N ?D] => dpair (settle' N D) end. cbn [fst].
+    now apply settle'_R.
+Qed.
+
+Definition origin_backed (n : node) : Prop :=
+  forall h e o, List.In (h, e, o) (n_origin_waiting n) ->
+    exists host l, List.In (host, l) (n_peer_waiting n) /\ mem_zz (h, e) l = true.
+
+Lemma ob_origin_backed n : ob n -> origin_backed n.
+Proof.
+  intros H h e o Hin. destruct (H _ _ _ Hin) as [host Hb]. unfold pw_get in Hb.
+  destruct (List.find _ (n_peer_waiting n)) as [[hs l]|] eqn:E; [|discriminate].
+  apply find_some in E. destruct E as [E _]. eauto.
+Qed.
+
+Definition ans_disc (evs : list (dials * event)) : Prop := Forall (fun de => ans_ok (snd de)) evs.
+(* reachable by a history in which Application.send_answer is only called with answers *)
+Definition reach_a (n0 n : node) : Prop :=
+  exists evs : list (dials * event), wf_init n0 /\ ans_disc evs /\ n = fst (run n0 evs).
+Definition reach_ga (n0 n : node) : Prop :=
+  exists evs : list (dials * event), wf_init_g n0 /\ ce_guard n0 evs /\ ans_disc evs /\ n = fst (run n0 evs).
+Lemma reach_ga_reach_g n0 n : reach_ga n0 n -> reach_g n0 n.
+Proof. intros [evs [A [B [_ C]]]]. exists evs. auto. Qed.
+Lemma reach_ga_reach_a n0 n : reach_ga n0 n -> reach_a n0 n.
+Proof. intros [evs [[A _] [_ [B C]]]]. exists evs. auto. Qed.
+Lemma reach_a_reach n0 n : reach_a n0 n -> reach n0 n.
+Proof. intros [evs [A [_ C]]]. exists evs. auto. Qed.
+
+Lemma run_ob evs : forall n, ans_disc evs -> ob n -> ob (fst (run n evs)).
+Proof.
+  induction evs as [|de r IH]; intros n Hd H; [exact H|].
+  inversion Hd; subst. rewrite run_cons. apply IH; auto. now apply step_ob.
+Qed.
+
+Theorem C19_origin_backed : forall n0 n, reach_a n0 n -> origin_backed n.
+Proof.
+  intros n0 n [evs [Hw [Hd E]]]. subst n. apply ob_origin_backed, run_ob; auto.
+  destruct Hw as [_ [_ [_ [_ [_ [Eo _]]]]]]. intros h e o Hin. rewrite Eo in Hin. destruct Hin.
+Qed.
+
+Corollary C19_no_conns_no_origin : forall n0 n, reach_ga n0 n -> n_conns n = [] -> n_origin_waiting n = [].
+Proof.
+  intros n0 n H E. destruct (C19_no_conns_no_tables _ _ (reach_ga_reach_g _ _ H) E) as [_ [_ [Ep _]]].
+  pose proof (C19_origin_backed _ _ (reach_ga_reach_a _ _ H)) as Hb.
+  destruct (n_origin_waiting n) as [|[[h e] o] l] eqn:Eo; auto.
+  destruct (Hb h e o) as [host [l' [Hin _]]]; [rewrite Eo; now left|]. rewrite Ep in Hin. destruct Hin.
+Qed.
+
+(* ---------------------------------------------------------------------------------------- *)
 (* 9. witnesses: the statements are not vacuous, and the unguarded ones are false             *)
 (* ---------------------------------------------------------------------------------------- *)
 Module Witness.
@@ -2934,6 +3622,47 @@ Proof.
   vm_compute. auto.
 Qed.
 
+(* what the application hands to send_answer for the request with identifiers (hbh, hbh) *)
+Definition app_ans (req : bool) (hbh : Z) : omsg :=
+  {| o_cmd := App 272%Z; o_req := req; o_app := 4%Z; o_hbh := hbh; o_e2e := hbh; o_result := Some 2001%Z;
+     o_failed := []; o_tag := 0%Z |}.
+
+(* not vacuous: a request that is waiting for the application's answer is in both tables; the answer empties both *)
+Example origin_backed_witness :
+  let n0 := node0 [mkpeer "a" false] in
+  let evs := [([], EAccept 1%Z); ([], ERecv 0 [ce true "a" 1%Z]); ([], ERecv 0 [appreq "a" 7%Z])] in
+  let n := fst (run n0 evs) in
+  let n' := fst (run n0 (evs ++ [([], EAppAnswer 0 (app_ans false 7%Z))])) in
+  reach_ga n0 n /\ n_origin_waiting n = [(7%Z, 7%Z, "a"%string)] /\ n_peer_waiting n = [("a"%string, [(7%Z, 7%Z)])] /\
+  reach_ga n0 n' /\ n_origin_waiting n' = [] /\ n_peer_waiting n' = [("a"%string, [])].
+Proof.
+  cbv zeta. split; [|split; [vm_compute; reflexivity|split; [vm_compute; reflexivity|split; [|split; vm_compute; reflexivity]]]].
+  - exists [([], EAccept 1%Z); ([], ERecv 0 [ce true "a" 1%Z]); ([], ERecv 0 [appreq "a" 7%Z])].
+    split; [split; [wf_tac|cbn; intuition discriminate]|]. split; [ce_guard_tac|].
+    split; [|reflexivity]. repeat constructor.
+  - exists [([], EAccept 1%Z); ([], ERecv 0 [ce true "a" 1%Z]); ([], ERecv 0 [appreq "a" 7%Z]);
+            ([], EAppAnswer 0 (app_ans false 7%Z))].
+    split; [split; [wf_tac|cbn; intuition discriminate]|]. split; [ce_guard_tac|].
+    split; [|reflexivity]. repeat constructor.
+Qed.
+
+(* ---- FINDING: the discipline is needed.  Application.send_answer called with a message whose request flag is
+   set: route_answer takes the waiting entry, send_message treats the message as a request (no _record_answer),
+   and the origin entry stays for ever although nothing backs it.  The history satisfies (i') and (iii). ---- *)
+Theorem C19_origin_backed_request_flag_refuted :
+  exists n0 evs, wf_init_g n0 /\ ce_guard n0 evs /\
+    let n := fst (run n0 evs) in
+    n_origin_waiting n = [(7%Z, 7%Z, "a"%string)] /\ n_peer_waiting n = [("a"%string, [])] /\ ~ origin_backed n.
+Proof.
+  exists (node0 [mkpeer "a" false]).
+  exists [([], EAccept 1%Z); ([], ERecv 0 [ce true "a" 1%Z]); ([], ERecv 0 [appreq "a" 7%Z]);
+          ([], EAppAnswer 0 (app_ans true 7%Z))].
+  split; [split; [wf_tac|cbn; intuition discriminate]|]. split; [ce_guard_tac|].
+  cbv zeta. split; [reflexivity|]. split; [reflexivity|]. intros H.
+  destruct (H 7%Z 7%Z "a"%string) as [host [l [Hin Hm]]]; [vm_compute; auto|].
+  vm_compute in Hin. destruct Hin as [E|[]]. inversion E; subst. discriminate Hm.
+Qed.
+
 (* ---------------------------------------------------------------------------------------- *)
 (* 10. step-level facts: the ready flag of applications (C13_ready_flag_partial) and the       *)
 (*     partial converse of C13                                                                *)
@@ -3056,6 +3785,8 @@ Print Assumptions C19_waiting_hosts.
 Print Assumptions C19_no_conns_no_waiting.
 Print Assumptions C06_ready_known_g.
 Print Assumptions C19_no_conns_no_tables.
+Print Assumptions C19_origin_backed.
+Print Assumptions C19_no_conns_no_origin.
 Print Assumptions reachable_two_conns.
 Print Assumptions election_won.
 Print Assumptions election_lost.
@@ -3069,6 +3800,8 @@ Print Assumptions C19_connecting_read_refuted.
 Print Assumptions C06_connecting_read_refuted.
 Print Assumptions C13_empty_name_refuted.
 Print Assumptions C19_empty_name_refuted.
+Print Assumptions origin_backed_witness.
+Print Assumptions C19_origin_backed_request_flag_refuted.
 Print Assumptions C13_ready_flag_partial.
 Print Assumptions C13_ready_flag_removed.
 Print Assumptions C13_peer_conn_converse_partial.
